@@ -96,7 +96,9 @@ MULTI_PAIRS = [
 
 # mechanism keys of genuine findings (see known_findings.json / the report of this check)
 KEY_ND_HESSIAN = "C15/scipy-hessian-absolute-step"
+KEY_SCIPY_MIN = "C15/scipy-minimizer-stops-short-when-rescaled"
 KEY_SCIPY_XTOL = "C15/scipy-asymmetric-errors-absolute-xtol"
+KEY_MIGRAD_ERR = "C15/iminuit-parameter-errors-cached-before-hesse"
 
 
 def floors(tier):
@@ -589,27 +591,34 @@ def read_results(b, asym, band_x):
     fit = b.fit
     out = {"names": list(b.names)}
     out["values"] = np.array(fit.parameter_values, dtype=float)
-    out["errors"] = np.array(fit.parameter_errors, dtype=float)
     cm = fit.parameter_cov_mat
     out["cov"] = None if cm is None else np.array(cm, dtype=float)
+    out["errors"] = np.array(fit.parameter_errors, dtype=float)
     cr = fit.parameter_cor_mat
     out["cor"] = None if cr is None else np.array(cr, dtype=float)
     out["gof"] = fit.goodness_of_fit
     out["cost"] = float(fit.cost_function_value)
     out["ndf"] = int(fit.ndf)
     out["prob"] = fit.chi2_probability
-    out["bands"] = []
-    for f, xs in zip(b.member_fits, band_x):
-        if xs is None or out["cov"] is None:
-            out["bands"].append(None)
-        else:
-            out["bands"].append(np.array(f.error_band(np.array(xs, dtype=float)), dtype=float))
     out["values_by_name"] = dict(zip(b.names, out["values"]))
+    out["bands"] = []
+    if band_x is not None:
+        out["bands"] = read_bands(b, band_x, out["cov"])
     if asym:
         with time_limit(120):
             ae = fit.asymmetric_parameter_errors
         out["asym"] = None if ae is None else np.array(ae, dtype=float)
     return out
+
+
+def read_bands(b, band_x, cov):
+    bands = []
+    for f, xs in zip(b.member_fits, band_x):
+        if xs is None or cov is None:
+            bands.append(None)
+        else:
+            bands.append(np.array(f.error_band(np.array(xs, dtype=float)), dtype=float))
+    return bands
 
 
 # ------------------------------------------------------------------ classifier of known mechanisms
